@@ -2,6 +2,7 @@ import Naga.Sexp
 import Naga.Sem.IR
 import Naga.Sem.Wgsl
 import Naga.Sem.Spv
+import Naga.Sem.SpvValid
 namespace Naga.Driver.Sem
 open Naga Naga.Sem
 
@@ -53,6 +54,16 @@ def handleSpv (ast : Sexp) (ws : List Sexp) (ins : List Sexp) : String :=
 /-- `(sem (ast M) (ir M') (inputs (b w…)…))` ↦ `agree …` / `DISAGREE …` / `skip …`. -/
 def handle (line : String) : String :=
   match Sexp.parseLine line with
+  | some [.list [.atom "spvvalid", ver, .list (.atom "spv" :: ws)]] =>
+    match ver.nat?, ws.mapM Sexp.nat? with
+    | some v, some words =>
+      match Spv.decode words with
+      | none => "INVALID physical layout: header / instruction word counts do not decode"
+      | some b =>
+        match SpvValid.validate b v with
+        | [] => "valid"
+        | es => "INVALID " ++ " ;; ".intercalate (es.take 6)
+    | _, _ => "bad-case"
   | some [.list [.atom "spvsem", .list [.atom "ast", ast], .list (.atom "spv" :: ws), .list (.atom "inputs" :: ins)]] =>
     handleSpv ast ws ins
   | some [.list [.atom "sem", .list [.atom "ast", ast], .list [.atom "ir", irs], .list (.atom "inputs" :: ins)]] =>
